@@ -35,6 +35,7 @@ def _twin():
 
 
 A2 = _twin()
+A2.__qualname__ = "A"          # ... with the same qualified name too (two modules each defining `class A`)
 TYPES = [A, B, D, K, A2]
 
 
